@@ -100,6 +100,14 @@ static int count_fds(void) {
 }
 
 /* ---------------------------------------------------------------- wraps */
+/* module pipes: shrunk to `pipecap` messages when the script asks for it (bursts beyond the capacity stay cheap) */
+static long pipecap;
+int __real_pipe(int fds[2]);
+int __wrap_pipe(int fds[2]) {
+    int r = __real_pipe(fds);
+    if (r == 0 && pipecap > 0) fcntl(fds[1], F_SETPIPE_SZ, (int)(pipecap * sizeof(void *)));
+    return r;
+}
 int __real_close(int fd);
 int __wrap_close(int fd) {
     for (int i = 0; i < NUFD; i++) if (fd >= 0 && fd == ufd_r[i] && !ufd_closed[i]) { out("close %d", i); ufd_closed[i] = true; }
@@ -303,7 +311,7 @@ static int exec_call(proc_t *pr, int idx, m_evt_t **cur, int ncur) {
     call_t *c = &pr->calls[idx];
     const char *o = c->tok[0];
     int consumed = 1;
-    if (!strcmp(o, "tell") || !strcmp(o, "publish")) out("> %s %s", o, c->tok[3]);
+    if (!strcmp(o, "tell") || !strcmp(o, "publish") || !strcmp(o, "tellmany")) out("> %s %s", o, c->tok[3]);
     else if (!strcmp(o, "broadcast")) out("> %s %s", o, c->tok[2]);
     else if (!strcmp(o, "stash")) out("> %s %ld", o, 100 * (L(c->tok[1]) + 1) + L(c->tok[2]) + 1);
     else out("> %s", o);
@@ -378,6 +386,7 @@ static int exec_call(proc_t *pr, int idx, m_evt_t **cur, int ncur) {
     }
     else if (!strcmp(o, "unsub")) out("r%d", m_mod_ps_unsubscribe(H(a), topic_str(L(c->tok[2]))));
     else if (!strcmp(o, "tell")) out("r%d", m_mod_ps_tell(H(a), H(L(c->tok[2])), get_payload(L(c->tok[3])), L(c->tok[4]) ? M_PS_AUTOFREE : 0));
+    else if (!strcmp(o, "tellmany")) { int r = 0; for (long i = 0; i < L(c->tok[4]); i++) r = m_mod_ps_tell(H(a), H(L(c->tok[2])), get_payload(L(c->tok[3])), 0); out("r%d", r); }
     else if (!strcmp(o, "publish")) out("r%d", m_mod_ps_publish(H(a), topic_str(L(c->tok[2])), get_payload(L(c->tok[3])), L(c->tok[4]) ? M_PS_AUTOFREE : 0));
     else if (!strcmp(o, "broadcast")) out("r%d", m_mod_ps_publish(H(a), NULL, get_payload(L(c->tok[2])), L(c->tok[3]) ? M_PS_AUTOFREE : 0));
     else if (!strcmp(o, "pill")) out("r%d", m_mod_ps_poisonpill(H(a), H(L(c->tok[2]))));
@@ -496,7 +505,7 @@ int main(int argc, char **argv) {
         for (char *t = strtok(ln, " \t\r\n"); t && nt < 40; t = strtok(NULL, " \t\r\n")) tok[nt++] = t;
         if (!nt) continue;
         if (!strcmp(tok[0], "case")) {
-            snprintf(id, sizeof(id), "%s", tok[1]); in_case = true; nmods = 0; ncbs = 0; nprocs = 2; curp = -1;
+            snprintf(id, sizeof(id), "%s", tok[1]); in_case = true; nmods = 0; ncbs = 0; nprocs = 2; curp = -1; pipecap = 0;
             memset(procs, 0, MAXPROC * sizeof(proc_t)); continue;
         }
         if (!in_case) continue;
@@ -514,6 +523,7 @@ int main(int argc, char **argv) {
             modspec_t s = { atoi(tok[2]), atoi(tok[3]), atoi(tok[4]), atoi(tok[5]), atoi(tok[6]), atoi(tok[7]), atoi(tok[8]), atoi(tok[9]), atoi(tok[10]), atoi(tok[11]) };
             mods[m] = s; if (m >= nmods) nmods = m + 1; continue;
         }
+        if (!strcmp(tok[0], "pipecap")) { pipecap = atol(tok[1]); continue; }
         if (!strcmp(tok[0], "tslot") || !strcmp(tok[0], "rem")) continue;
         if (!strcmp(tok[0], "cb") && nt >= 4) {
             cbtab_t *c = &cbs[ncbs++]; c->mod = atoi(tok[1]);
